@@ -3,6 +3,7 @@
 package asm
 
 import (
+	"github.com/llir/llvm/ir"
 	"github.com/llir/llvm/ir/constant"
 	"github.com/llir/llvm/ir/types"
 )
@@ -78,4 +79,89 @@ func VfC10_ParseContext() {
 	if err2 == nil {
 		vfAssert("C10.context.print-fixpoint", m2.String() == y)
 	}
+}
+
+// VfC10_Aggregates: special values inside aggregates.  A literal of a special
+// class (NaN and infinity of either sign, zero of either sign, one) in an
+// array, a vector and a struct whose other leaves are zero or the same
+// literal, for double / float / half (16-digit layout): every leaf read back
+// after parse, print, parse is the literal it was (NaN flag, sign, printed
+// form), whatever shorthand the printer may use for the aggregate.
+//
+//vf:unwind 600
+//vf:shards 6
+func VfC10_Aggregates() {
+	lits := [...]string{"0x7FF8000000000000", "0xFFF8000000000000", "0x7FF0000000000000", "0xFFF0000000000000", "0.0", "-0.0", "1.0"}
+	lit := lits[vfChoice("literal", len(lits))]
+	K := hC10Kinds[vfChoice("kind", len(hC10Kinds))]
+	other := "0.0"
+	if vfChoice("other", 2) == 1 {
+		other = lit
+	}
+	t := K.text
+	src := "@a = global [2 x " + t + "] [" + t + " " + lit + ", " + t + " " + other + "]\n" +
+		"@v = global <2 x " + t + "> <" + t + " " + other + ", " + t + " " + lit + ">\n" +
+		"@s = global { " + t + ", i32, " + t + " } { " + t + " " + lit + ", i32 0, " + t + " " + other + " }\n"
+	ref, errR := constant.NewFloatFromString(&types.FloatType{Kind: K.kind}, lit)
+	refO, errO := constant.NewFloatFromString(&types.FloatType{Kind: K.kind}, other)
+	if errR != nil || errO != nil {
+		vfCut("literal not accepted for this kind on its own")
+	}
+	m, err := ParseString("t.ll", src)
+	vfReach("C10.aggregates")
+	vfObserveStr("src", src)
+	vfAssert("C10.aggregates.accepted", err == nil)
+	if err != nil {
+		return
+	}
+	y := m.String()
+	vfObserveStr("printed", y)
+	m2, err2 := ParseString("t2.ll", y)
+	vfAssert("C10.aggregates.print-accepted", err2 == nil)
+	if err2 != nil {
+		return
+	}
+	same := func(c constant.Constant, want *constant.Float) bool {
+		// a leaf may have been folded into a zeroinitializer by either side:
+		// that is only right for a positive zero
+		if _, isZero := c.(*constant.ZeroInitializer); isZero {
+			return vfAnd(vfNot(want.NaN), vfAnd(want.X.Sign() == 0, vfNot(want.X.Signbit())))
+		}
+		f, ok := c.(*constant.Float)
+		if !ok {
+			return false
+		}
+		return vfAnd(f.NaN == want.NaN, vfAnd(f.X.Signbit() == want.X.Signbit(), f.Ident() == want.Ident()))
+	}
+	leaves := func(mm *ir.Module) bool {
+		r := true
+		switch a := mm.Globals[0].Init.(type) {
+		case *constant.Array:
+			r = vfAnd(r, vfAnd(same(a.Elems[0], ref), same(a.Elems[1], refO)))
+		case *constant.ZeroInitializer:
+			r = vfAnd(r, vfAnd(same(a, ref), same(a, refO)))
+		default:
+			r = false
+		}
+		switch v := mm.Globals[1].Init.(type) {
+		case *constant.Vector:
+			r = vfAnd(r, vfAnd(same(v.Elems[0], refO), same(v.Elems[1], ref)))
+		case *constant.ZeroInitializer:
+			r = vfAnd(r, vfAnd(same(v, ref), same(v, refO)))
+		default:
+			r = false
+		}
+		switch s := mm.Globals[2].Init.(type) {
+		case *constant.Struct:
+			r = vfAnd(r, vfAnd(same(s.Fields[0], ref), same(s.Fields[2], refO)))
+		case *constant.ZeroInitializer:
+			r = vfAnd(r, vfAnd(same(s, ref), same(s, refO)))
+		default:
+			r = false
+		}
+		return r
+	}
+	vfAssert("C10.aggregates.leaves-parsed", leaves(m))
+	vfAssert("C10.aggregates.leaves-kept-through-print", leaves(m2))
+	vfAssert("C10.aggregates.print-fixpoint", m2.String() == y)
 }
